@@ -94,7 +94,12 @@ class Expander(object):
             m = self.f.cls.lookup_method(c.func.attr)
             if m is not None and m.kind == "static":
                 tgt = m
-        if not isinstance(tgt, FuncInfo) or tgt.kind not in ("function", "static") or not tgt.name.startswith("_") or tgt.is_generator:
+        if tgt is None and isinstance(c.func, ast.Attribute) and isinstance(c.func.value, ast.Name) and self.f.cls is not None \
+                and self.f.params and c.func.value.id == self.f.params[0] and self.f.kind == "classmethod":
+            m = self.f.cls.lookup_method(c.func.attr)
+            if m is not None and m.kind == "classmethod":
+                tgt = m
+        if not isinstance(tgt, FuncInfo) or tgt.kind not in ("function", "static", "classmethod") or not tgt.name.startswith("_") or tgt.is_generator:
             return None
         expr = expression_of(tgt)
         if expr is None:
@@ -102,10 +107,13 @@ class Expander(object):
         if any(isinstance(a, ast.Starred) for a in c.args) or any(k.arg is None for k in c.keywords) or tgt.vararg or tgt.kwarg:
             return None
         sub = {}
+        pparams = tgt.params[1:] if tgt.kind == "classmethod" else tgt.params
+        if tgt.kind == "classmethod" and tgt.params:
+            sub[tgt.params[0]] = ast.Name(id=tgt.params[0], ctx=ast.Load())
         for i, a in enumerate(c.args):
-            if i >= len(tgt.params):
+            if i >= len(pparams):
                 return None
-            sub[tgt.params[i]] = self._x(copy.deepcopy(a), node, depth + 1, busy)
+            sub[pparams[i]] = self._x(copy.deepcopy(a), node, depth + 1, busy)
         for k in c.keywords:
             sub[k.arg] = self._x(copy.deepcopy(k.value), node, depth + 1, busy)
         for p0 in tgt.params + tgt.kwonly:
@@ -214,8 +222,8 @@ def expression_of(tgt):
     key = (id(tgt.node))
     if key in cache:
         return cache[key]
-    body = [st for st in tgt.node.body if not (isinstance(st, ast.Expr) and isinstance(st.value, ast.Constant))
-            and not isinstance(st, (ast.Import, ast.ImportFrom))]
+    # expression statements (calls made for their effect) do not change the value that is returned: skipped
+    body = [st for st in tgt.node.body if not isinstance(st, (ast.Expr, ast.Import, ast.ImportFrom, ast.Pass))]
     env = {}
 
     def subst_locals(e):
@@ -356,25 +364,32 @@ def _guards_at(x, node):
     return out
 
 
-def effect_calls(prog, f, pred, depth=3, _x=None, _at=None, _seen=(), _outer=()):
-    """[Eff] for calls c with pred(c), in f and in the private helpers it calls (arguments substituted)."""
-    x = _x or Expander(f)
+def effect_calls(prog, f, pred, depth=3, _x=None, _at=None, _seen=(), _outer=(), expanded=False):
+    """[Eff] for calls c with pred(c), in f and in the private helpers it calls (arguments substituted).
+    expanded=True: pred is applied to the expanded call (so `add = self.graph.add; add(t)` is seen as self.graph.add(t))."""
+    x = _x or Expander(f, inline=prog)
     out = []
     for node in x.g.nodes:
         for root in node.expr_roots():
             for c in ast.walk(root):
                 if not isinstance(c, ast.Call):
                     continue
-                if pred(c):
-                    out.append(Eff(x.expand(c, node), _at or node, f, node, x, c, _outer))
+                cx = None
+                if expanded:
+                    cx = x.expand(c, node)
+                    hit = isinstance(cx, ast.Call) and pred(cx)
+                else:
+                    hit = pred(c)
+                if hit:
+                    out.append(Eff(cx if cx is not None else x.expand(c, node), _at or node, f, node, x, c, _outer))
                     continue
                 tgt = _is_private_helper_call(f, c) if depth > 0 else None
                 if tgt is not None and tgt.qualname not in _seen and tgt is not f:
                     is_static = tgt.kind == "static" or not tgt.has_self
                     sub = _bind(tgt, c, x, node, has_recv=not is_static)
-                    hx = Expander(tgt, subst=sub)
+                    hx = Expander(tgt, subst=sub, inline=prog)
                     out += effect_calls(prog, tgt, pred, depth - 1, hx, _at or node, tuple(_seen) + (f.qualname,),
-                                        tuple(_outer) + tuple(_guards_at(x, node)))
+                                        tuple(_outer) + tuple(_guards_at(x, node)), expanded)
     return out
 
 
